@@ -71,18 +71,48 @@ def local_rule_failures(i, op, ob, snap, cur):
     return bad
 
 
+def durability_failures(i, ob, prev_snap, queued):
+    """The finalized block is handed to storage before the replica state that records its commit is made durable
+    (save_block waits for persistence before start_new_view prunes the proposal cache and backs the state up): for
+    every persisted state whose high commit certificate is for block n while the replica held the payload of n in
+    its proposal cache before the step, the queue-block effect of n precedes that persist. `queued` accumulates the
+    numbers handed to storage so far (mutated)."""
+    bad = []
+    effs = ob[1][0] + (ob[2][0] if ob[0] == [7] else [])
+    cache = {}
+    if prev_snap and len(prev_snap) > 5:
+        cache = {int(e[0]): set(e[1]) for e in prev_snap[5]}
+    for e in effs:
+        if e[0] == 2:
+            queued.add(int(e[1]))
+        elif e[0] == 0 and ob[0] != [7]:
+            d = e[1]
+            if d[4]:
+                n, pay = int(d[4][0][1][0]), d[4][0][1][1]
+                if n in cache and pay in cache[n] and n not in queued:
+                    bad.append({"step": i, "failed": f"the replica state recording the commit of block {n} was made durable before block {n} was handed to storage, although the replica held its payload (after this write the proposal is pruned: a crash now loses a committed block)"})
+    return bad
+
+
 def predicates(case, out):
     bad = []
     prev = None
+    prev_snap, queued = None, set()
     for i, ob in enumerate(out["obs"]):
         if ob == [9] or len(ob) < 3:
             continue
+        op0 = case["ops"][i - 1] if i > 0 else None
+        if op0 is not None and op0["t"] == "sync":
+            queued.add(int(op0["n"]))
+        bad += durability_failures(i, ob, prev_snap, queued)
         if ob[0] == [7]:
             prev = None  # crash/restart: C03's business
+            prev_snap = None
             continue
         snap = ob[2]
         if not snap:
             continue
+        prev_snap = snap
         cur = cert_views(snap)
         op = case["ops"][i - 1] if i > 0 else None
         if op is not None and op["t"] == "restart":
